@@ -71,12 +71,16 @@ def bundled_errors(rep, pest, thorough):
     with open(path, "w") as fh:
         for b in items + corpus.bundled() + corpus.other_suite_grammars():
             gtext = b["grammar"]
+            try:
+                own = set(pest.Parser.from_grammar(gtext, optimizer=None).rules)  # the rules of the GRAMMAR (the optimizer adds a synthetic SKIP)
+            except Exception:  # noqa: BLE001
+                continue
             for mode in M.MODES:
                 try:
                     parser, base = M.build(pest, gtext, mode)
                 except Exception:  # noqa: BLE001
                     continue
-                names = set(base.rules) | set(pest.Parser.BUILTIN) | {"SKIP"}
+                names = own | set(pest.Parser.BUILTIN)
                 for rule, text in b["samples"]:
                     if rule not in base.rules:
                         continue
@@ -117,6 +121,9 @@ def run(tier: str) -> int:
             {"Family": "core2", "MaxLen": 3, "Starts": "zero", "Sample": 120, "workers": 2},
             {"Family": "trivia3", "MaxLen": 3, "Starts": "zero", "Sample": 100, "workers": 3},
             {"Family": "stack", "MaxLen": 3, "Starts": "zero", "Sample": 250, "workers": 3},
+            {"Family": "trivia2", "MaxLen": 3, "Starts": "zero", "Sample": 200, "workers": 3},  # every trivia configuration, also COMMENT alone (fused SKIP rule)
+            {"Family": "opttrv", "MaxLen": 3, "Starts": "zero", "Sample": 120, "workers": 3, "style": "min"},
+            {"Family": "trivfx", "MaxLen": 3, "Starts": "zero", "Sample": 120, "workers": 3},
         ]
     else:
         fams = [
@@ -125,6 +132,9 @@ def run(tier: str) -> int:
             {"Family": "trivia3", "MaxLen": 4, "Starts": "zero", "Sample": 1500, "workers": 8},
             {"Family": "mods", "MaxLen": 4, "Starts": "zero", "Sample": 1000, "workers": 8},
             {"Family": "stack", "MaxLen": 4, "Starts": "zero", "Sample": 3000, "workers": 8},
+            {"Family": "trivia2", "MaxLen": 4, "Starts": "zero", "Sample": 0, "workers": 8},
+            {"Family": "opttrv", "MaxLen": 4, "Starts": "zero", "Sample": 0, "workers": 8, "style": "min"},
+            {"Family": "trivfx", "MaxLen": 3, "Starts": "zero", "Sample": 0, "workers": 8},
         ]
     for f in fams:
         replay.run_family(rep, f, "err", modes)
